@@ -325,8 +325,8 @@ pub fn prop() -> Prop {
         describe,
         rule: "a generated game and a transformed presentation of it, the transformation being a stream-chosen combination of: bijective renaming of infosets/actions/chance infosets, payoff scaling (powers of two or arbitrary), payoff shift, player swap with negated payoffs, per-node chance rescaling (common powers of two inside shared infosets), insertion and removal of single-outcome chance and single-action decision nodes; oracle (metamorphic): (i) a generated profile evaluates to the same utility and regrets up to the stated scaling/shift/negation/swap (1e-9 relative); (ii) Full solve on one thread (presets and tuples with no_positive in {0, +-inf}, T in 1..30) returns the mapped strategies and scaled/swapped bounds: within 1e-12 for transformations that change no rounding, within 1e-6 under the conditioning guard otherwise. Non-trivial = the transformation inserted/removed a node or renamed/swapped a game with a multi-node infoset, and the solution is not uniform; distinct by (both trees, parameters, T).",
         max_len: 800,
-        cases_quick: 12_000,
-        cases_thorough: 300_000,
+        cases_quick: 600_000,
+        cases_thorough: 8_000_000,
         assumptions: &["a finite non-zero soft-max weight is scale dependent by definition and is excluded from the solver relation"],
         post: None,
         watchdog_s: 60,
